@@ -138,6 +138,35 @@ fn case<S: Shape>(r: &mut Rng, acc: &mut Acc, index: u64, verbose: bool) {
     // one quarter of the cases: a merged timeline of two components with disjoint property sets and
     // independent timing (the statement quantifies over all timelines); `owner[f]` = component of field f
     let merged = S::N_ANIM >= 2 && r.chance(1, 4);
+    // one plain timeline in eight leaves some of the timing setters (duration, delay, repeat) out: the timeline is
+    // then judged against what a bare builder *reports* for them — no particular default is demanded, only that it
+    // is a valid configuration (a positive cycle) and that keyframes are reached at the instants it implies
+    let mut omit: u8 = 0;
+    if !merged && r.chance(1, 8) {
+        let m = 1 + r.below(7) as u8;
+        let bare = crate::shapes::with_omitted(15, || S::build_tl(&TlSpec::plain(1.0)));
+        let (d0, c0, r0) = (bare.delay(), bare.cycle_duration(), bare.repeat());
+        match c0 {
+            Some(c) if c > 0.0 && c.is_finite() && d0.is_finite() => {
+                let probe = TlSpec::plain(c);
+                if probe.dyadic_cycle() && (d0 * 512.0).fract() == 0.0 && d0.abs() <= 16.0 {
+                    omit = m;
+                    if m & 1 != 0 { spec.cycle = c; }
+                    if m & 2 != 0 { spec.delay = d0; }
+                    if m & 4 != 0 { spec.repeat = Rep::from_mina(r0); }
+                }
+            }
+            _ => {
+                acc.eval();
+                acc.violation(
+                    "c02:unconfigured-builder",
+                    format!("a timeline built without duration/delay/repeat reports cycle {:?} and delay {d0}: no instant can reach a keyframe position of a cycle that is not positive", c0),
+                    case_json(STREAM, index, vec![("shape", J::s(S::NAME)), ("clause", J::s("defaults form a valid configuration"))]),
+                );
+                return;
+            }
+        }
+    }
     let mut specs = vec![spec.clone()];
     if merged {
         let mut other = gen_tl(r, kinds, &opts);
@@ -153,7 +182,7 @@ fn case<S: Shape>(r: &mut Rng, acc: &mut Acc, index: u64, verbose: bool) {
         specs.push(other);
     }
     let owner = |f: usize| if merged { f % 2 } else { 0 };
-    let single = if merged { None } else { Some(S::build_tl(&specs[0])) };
+    let single = if merged { None } else { Some(crate::shapes::with_omitted(omit, || S::build_tl(&specs[0]))) };
     let multi = if merged { Some(crate::shapes::build_merged::<S>(&specs)) } else { None };
     let (mut single, mut multi) = (single, multi);
     if let Some(v) = &subst {
@@ -198,7 +227,7 @@ fn case<S: Shape>(r: &mut Rng, acc: &mut Acc, index: u64, verbose: bool) {
     }
     let case = |t: f32, f: usize, clause: &str| {
         case_json(STREAM, index, vec![
-            ("shape", J::s(S::NAME)), ("timeline", J::A(specs.iter().map(|s| s.json()).collect())), ("merged", J::B(merged)),
+            ("shape", J::s(S::NAME)), ("timeline", J::A(specs.iter().map(|s| s.json()).collect())), ("merged", J::B(merged)), ("omitted_timing_setters_mask", J::U(omit as u64)),
             ("start_with", subst.as_ref().map(|v| J::A(v.iter().map(|x| J::F(*x)).collect())).unwrap_or(J::Null)),
             ("t", J::F(t as f64)), ("t_bits", J::U(t.to_bits() as u64)), ("field", J::s(S::FIELDS[f])), ("clause", J::s(clause)),
         ])
